@@ -76,9 +76,16 @@ def gen(rng, tier, info):
             w = 16 if w16 else 8
             count = rng.choice([1, 2, 3, 7, 40])
             v = rng.choice(["db", "rb"])
-            calls_r = ["c 44 0", "r %d %d %s" % (len(px), count, " ".join(map(str, px))),
+            # every third case: a data-pin (or strobe) write FAILS during the first fill; the colour sent afterwards must
+            # still reach the pins correctly encoded
+            fk = rng.range(2, 3 + w) if rng.chance(1, 3) else -1
+            eff = rng.chance(1, 2)
+            pre = ("fail %d " % fk) if fk >= 0 else ""
+            calls_r = ["c 44 0", pre + "r %d %d %s" % (len(px), count, " ".join(map(str, px))),
+                       "c 44 0", "r %d %d %s" % (len(px), count, " ".join(map(str, px))),
                        "c 44 0", "p %d %d %s" % (len(px), count, " ".join(" ".join(map(str, px)) for _ in range(count)))]
-            calls_c = ["((-1), false, Corr.C07.PCmd 44 [])", "((-1), false, Corr.C07.PRep %s %d)" % (zl(px), count),
+            calls_c = ["((-1), false, Corr.C07.PCmd 44 [])", "(%s, %s, Corr.C07.PRep %s %d)" % (vlib.z(fk), b(eff), zl(px), count),
+                       "((-1), false, Corr.C07.PCmd 44 [])", "((-1), false, Corr.C07.PRep %s %d)" % (zl(px), count),
                        "((-1), false, Corr.C07.PCmd 44 [])", "((-1), false, Corr.C07.PPx [%s])" % ";".join(zl(px) for _ in range(count))]
             line = "par %d 100000 %s" % (w, " ".join(calls_r))
             coq = "C5Par (Corr.C07.ParCalls %d %s [%s])" % (w, "Debug" if v[0] == "d" else "Release", "; ".join(calls_c))
